@@ -170,7 +170,9 @@ type Model struct {
 	OpenQ     int // open queries
 	Open      map[int]*mOpenQuery
 	NextVal   int64
-	Extra     int // component types registered after the universe (op "register")
+	Extra     int    // component types registered after the universe (op "register")
+	Reg       uint16 // universe types registered so far
+	LateReg   int    // universe types registered after the start of the case
 }
 
 // NewModel creates an empty model.
